@@ -267,7 +267,7 @@ def miri_run(args, miri_seed, rate, timeout=300):
     binname = "miriprog"
     if args and args[0] == "--bin":
         binname, args = args[1], args[2:]
-    cmd = ["cargo", "+nightly", "miri", "run", "--offline", "-q", "--bin", binname, "--"] + args
+    cmd = ["cargo", "+nightly", "miri", "run", "--offline", "-q", "--target-dir", os.path.join(C.TARGET, "miri"), "--bin", binname, "--"] + args
     try:
         r = subprocess.run(cmd, cwd=MIRI_DIR, env=env, stdout=subprocess.PIPE, stderr=subprocess.PIPE, text=True, timeout=timeout)
     except subprocess.TimeoutExpired:
@@ -308,9 +308,9 @@ def miri_classify(rc, out, err):
 def miri_build():
     t0 = time.time()
     env = dict(C.ENV)
-    subprocess.run(["cargo", "+nightly", "miri", "run", "--offline", "-q", "--bin", "byz", "--", "1", "1", "0", "0"], cwd=MIRI_DIR, env=env,
+    subprocess.run(["cargo", "+nightly", "miri", "run", "--offline", "-q", "--target-dir", os.path.join(C.TARGET, "miri"), "--bin", "byz", "--", "1", "1", "0", "0"], cwd=MIRI_DIR, env=env,
                    stdout=subprocess.PIPE, stderr=subprocess.PIPE, text=True, timeout=1200)
-    r = subprocess.run(["cargo", "+nightly", "miri", "run", "--offline", "-q", "--bin", "miriprog", "--", "nothing"], cwd=MIRI_DIR, env=env,
+    r = subprocess.run(["cargo", "+nightly", "miri", "run", "--offline", "-q", "--target-dir", os.path.join(C.TARGET, "miri"), "--bin", "miriprog", "--", "nothing"], cwd=MIRI_DIR, env=env,
                        stdout=subprocess.PIPE, stderr=subprocess.PIPE, text=True, timeout=1200)
     if r.returncode != 2:
         sys.stderr.write(r.stderr[-4000:])
